@@ -73,7 +73,7 @@ def diff(a, b):
 
 
 def one_program(src, others, rng, ctr, viols, tier):
-    seeds = list(range(0, 8)) if tier == "quick" else list(range(0, 32))
+    seeds = list(range(0, 4)) if tier == "quick" else list(range(0, 32))
     base = sub_dump(src, 0)
     if "error" in base:
         ctr["baseline_error"] += 1
@@ -84,7 +84,7 @@ def one_program(src, others, rng, ctr, viols, tier):
         if d:
             viols.append(("hash-seed", "PYTHONHASHSEED=%d vs 0: %s" % (hs, d)))
             break
-    for sh in range(3 if tier == "quick" else 8):
+    for sh in range(2 if tier == "quick" else 8):
         ctr["callee_order_runs"] += 1
         d = diff(base, sub_dump(src, 0, shuffle=sh))
         if d:
@@ -103,7 +103,7 @@ def one_program(src, others, rng, ctr, viols, tier):
             viols.append(("history", "after %d other contracts in the same process: %s" % (k, d)))
             break
     # detector orders and repetitions; contexts must not change
-    for _ in range(3):
+    for _ in range(2 if tier == "quick" else 4):
         order = list(observe.PATH_DETECTORS)
         rng.shuffle(order)
         obs = observe.analyse(src)
@@ -157,7 +157,7 @@ def run_batch(spec):
         for kind, what in viols:
             allv.append({"kind": kind, "key": kind, "what": what, "src": src, "prog": c["prog"], "version": c["version"], "mechanism": None})
         if len(out["samples"]) < 1 and len(src) < 600:
-            out["samples"].append({"src": src, "perturbations": ["PYTHONHASHSEED 0..7", "callee order x3", "history k=1,3", "detector order x3, each run twice"]})
+            out["samples"].append({"src": src, "perturbations": ["PYTHONHASHSEED sweep (quick 0..3, thorough 0..31)", "callee orders", "history k=1,3", "detector orders, each detector run twice"]})
     seen = {}
     for v in allv:
         seen.setdefault((v["kind"], common.h(v["src"])), v)
